@@ -160,3 +160,6 @@ Qed.
 
 (* evaluation never produces more than the four results; in particular it is total (no panic in
    go-ucan's own logic for nodes whose integers fit int64) *)
+
+Theorem ev_total s n : exists r : mres, ev s n = r.
+Proof. eexists. reflexivity. Qed.
